@@ -152,6 +152,7 @@ MCBytes == {%s}
     ctx.cov['traces_validated_against_impl'] += summ[0]['matched']
     ctx.cov['behaviours_replayed'] = summ[0]['behaviours']
     ctx.cov['behaviour_steps'] = summ[0]['steps']
+    ctx.cov['rotations_with_a_clock_passing_midnight'] = summ[0].get('ticking', 0)
     ctx.cov['evaluations'] += summ[0]['steps']
     for dv in [x for x in recs if x.get('kind') == 'divergence'][:5]:
         ctx.warn('MODEL-DIVERGENCE C09 %s' % json.dumps(dv))
